@@ -315,8 +315,21 @@ impl Prog {
 }
 
 // ------------------------------------------------------------------ generators
+/// boundary catalogue (thousandths): values strictly between -1 and 0 (a formatter that splits
+/// integer and fraction parts loses their sign), the rounding step of the 2-decimal operands
+/// (±0.004/±0.005/±0.006, ±0.994…±0.996), ±1 exactly, bleed coordinates just below zero, large ones
+pub const EDGE: [i64; 34] = [
+    -500, -750, -250, -10, -990, -1, -4, -5, -6, -14, -15, -16, -994, -995, -996, -999, -1000, -1004, -1005, 4, 5, 6, 994, 995, 996, 999, 1000, 1005,
+    -3175, -8500, 14_400_000, -14_400_000, 99_999_990, -99_999_990,
+];
 fn coord(r: &mut Rng) -> i64 {
     // thousandths; mostly 2-decimal values, sometimes 3 decimals (exercise the rounding), sometimes negative
+    if r.chance(1, 5) {
+        return *r.pick(&EDGE);
+    }
+    if r.chance(1, 10) {
+        return -(r.range(1, 999) as i64); // strictly inside (-1, 0)
+    }
     let base = r.range(0, 600_000) as i64;
     let v = match r.below(4) {
         0 => base / 1000 * 1000,
@@ -327,6 +340,20 @@ fn coord(r: &mut Rng) -> i64 {
         -v
     } else {
         v
+    }
+}
+/// a matrix: scalings, rotations by positive and NEGATIVE angles (sin/cos in thousandths, so the
+/// off-diagonal entries lie in (-1, 0) and (0, 1)), skews, reflections
+fn matrix(r: &mut Rng) -> [i64; 6] {
+    match r.below(5) {
+        0 => [r.range(0, 3000) as i64, 0, 0, r.range(0, 3000) as i64, coord(r), coord(r)],
+        1 | 2 => {
+            let deg = r.range(1, 359) as f64 * if r.chance(1, 2) { -1.0 } else { 1.0 };
+            let (s, c) = ((deg.to_radians().sin() * 1000.0).round() as i64, (deg.to_radians().cos() * 1000.0).round() as i64);
+            [c, s, -s, c, coord(r), coord(r)]
+        }
+        3 => [1000, -(r.range(1, 999) as i64), -(r.range(1, 999) as i64), 1000, coord(r), coord(r)], // skew by entries in (-1, 0)
+        _ => [-(r.range(1, 999) as i64), 0, 0, -(r.range(1, 2000) as i64), coord(r), coord(r)],    // reflection / shrink
     }
 }
 fn unit(r: &mut Rng) -> i64 {
@@ -376,7 +403,7 @@ pub fn gen_calls(r: &mut Rng, n: usize, allow_img: bool) -> Vec<Call> {
                     depth -= 1;
                 }
             }
-            11 => v.push(Call::Cm([r.range(0, 3000) as i64, 0, 0, r.range(0, 3000) as i64, coord(r), coord(r)])),
+            11 => v.push(Call::Cm(matrix(r))),
             12 => v.push(Call::Fill(col(r))),
             13 => v.push(Call::Stroke(col(r))),
             14 => v.push(Call::Text { font: r.below(14) as usize, size: r.range(4, 40) as i64 * 1000 + if r.chance(1, 3) { 500 } else { 0 }, x: coord(r), y: coord(r), s: text(r), col: col(r) }),
@@ -422,4 +449,22 @@ pub fn gen_prog(r: &mut Rng, i: u64, budget: usize) -> Prog {
     let outline = (0..r.below(3)).map(|k| (format!("Section {k}"), r.below(npages as u64) as usize)).collect();
     let opt = |r: &mut Rng, s: &str| if r.chance(1, 2) { Some(format!("{s} {}", text(r))) } else { None };
     Prog { cfg, title: opt(r, "Title"), author: opt(r, "Author"), subject: opt(r, "Subj"), pages, outline }
+}
+
+/// a document with `npages` small pages (one page dictionary + one content stream each): with the
+/// object-stream configuration the compressible objects (catalog, page tree, info, page dictionaries,
+/// annotations) exceed one object stream (100 members) for npages >= 98, two for npages >= 198
+pub fn gen_many_pages(r: &mut Rng, npages: usize, cfg: Cfg) -> Prog {
+    let mut pages = vec![];
+    for i in 0..npages {
+        let calls = if i % 17 == 0 {
+            gen_calls(r, 4, false)
+        } else if i % 5 == 0 {
+            vec![Call::Text { font: r.below(14) as usize, size: 10_000, x: coord(r), y: coord(r), s: format!("p{i}"), col: col(r) }]
+        } else {
+            vec![]
+        };
+        pages.push(PageP { w: 200_000 + (i as i64 % 7) * 1000, h: 100_000, rot: *r.pick(&[0, 90]), calls, annots: vec![] });
+    }
+    Prog { cfg, title: Some("many pages".into()), author: None, subject: None, pages, outline: vec![] }
 }
